@@ -9,6 +9,9 @@
      check_first_hanlde.go / check_third_file.go worker pools: results arrive in completion order and are stored in
                                maps keyed by file (collect)
      analysis_check_loc_var.go: one scope's unused-local diagnostics are produced while ranging over a map.
+     check_second_project.go : project mode: generateAllFristGlobalGMaps / generateRequireFileGlobalGmaps (project_merge_ws),
+                               handleOtherFileInsertSub (member_provider); check_lsp_define.go findMaxSecondProject
+                               (pick_project); fx = true: fixes/C09-project-order.diff
    Assumption: no protocol-prefix configuration (ExtraGlobal.StrProPre = "" everywhere). *)
 From Coq Require Import List NArith Bool.
 From LH Require Import Base.Bytes Model.FileIndex Model.ModulePath.
@@ -110,6 +113,74 @@ Definition no_least (name : list N) (items : list (list N * gvar)) : bool :=
   | [] => false
   | l => match least_of l with Some _ => false | None => true end
   end.
+
+(* ---- project mode (luahelper.json with ProjectFiles: one SingleProjectResult per entry file), check_second_project.go.
+        The first-phase _G table of a project, results/single_project_result.go:
+          InsertGlobalGMaps(name, v, CheckTermFirst)  appends v to FirstGlobalGMaps[name] unconditionally (there is
+                                                      NO JudgeShouldInsertGlobalInfo here: this is not `merge`)
+          FindGlobalGInfo(name, CheckTermFirst, "")   answers the LAST element of the vector (= `winner`)
+        It is filled by checkOneProject in two loops over the project's file set second.AllFiles (a Go map):
+          generateAllFristGlobalGMaps     every file's globals that carry GFlag (`_G.x = ...`): g_of
+          generateRequireFileGlobalGmaps  for every file, for every entry of its ReferVec (a slice: source order) that
+                                          is valid and not an import: the globals WITHOUT GFlag of the referenced file
+                                          (plain_of) - a require'd file once per project (FirstRequireFileMap), a
+                                          dofile'd one at every occurrence
+        fx = false: both loops `range second.AllFiles` (map order = the explicit order of `files`);
+        fx = true : fixes/C09-project-order.diff: both loops visit sortedFileList(second.AllFiles). ---- *)
+Definition project_step (t : gtable) (it : list N * gvar) : gtable :=
+  let (name, v) := it in
+  match aget name t with
+  | None => aset name [v] t
+  | Some vec => aset name (vec ++ [v]) t
+  end.
+Definition project_merge (items : list (list N * gvar)) : gtable := fold_left project_step items [].
+
+(* one ReferVec entry as far as InsertRequireInfoGlobalVars looks at it: true = require, false = dofile / loadfile;
+   the file the reference resolves to (ReferValidStr) *)
+Definition refer := (bool * list N)%type.
+Definition mem_path (p : list N) (l : list (list N)) : bool := existsb (beq_bytes p) l.
+
+(* state: FirstRequireFileMap (as the list of its keys) and the insertions made so far *)
+Definition require_step (plain_of : list N -> list (list N * gvar))
+    (st : list (list N) * list (list N * gvar)) (r : refer) : list (list N) * list (list N * gvar) :=
+  let (seen, acc) := st in
+  let (isreq, f) := r in
+  if isreq then (if mem_path f seen then st else (f :: seen, acc ++ plain_of f))
+  else (seen, acc ++ plain_of f).
+
+Definition require_items (plain_of : list N -> list (list N * gvar)) (refers_of : list N -> list refer)
+    (order : list (list N)) : list (list N * gvar) :=
+  snd (fold_left (require_step plain_of) (flat_map refers_of order) ([], [])).
+
+(* every insertion into FirstGlobalGMaps, in the order it is made *)
+Definition project_items (fx : bool) (g_of plain_of : list N -> list (list N * gvar)) (refers_of : list N -> list refer)
+    (files : list (list N)) : list (list N * gvar) :=
+  flat_map g_of (visit_order fx files) ++ require_items plain_of refers_of (visit_order fx files).
+
+Definition project_merge_ws (fx : bool) (g_of plain_of : list N -> list (list N * gvar))
+    (refers_of : list N -> list refer) (files : list (list N)) : gtable :=
+  project_merge (project_items fx g_of plain_of refers_of files).
+
+(* handleOtherFileInsertSub (third loop over second.AllFiles, after the table is complete): a member `T.x` that files
+   add to a global they do not define (NodefineMaps[T].SubMaps[x]) and that the global's own definition lacks is taken
+   from the FIRST file visited that adds it (IsExistMember guards InsertSubMember). adds f key: file f adds the member
+   `key` (= global name and member name). The same shape as the second loop of generateAllGlobalMaps. *)
+Definition member_provider (fx : bool) (adds : list N -> list N -> bool) (files : list (list N)) (key : list N)
+    : option (list N) :=
+  find (fun f => adds f key) (visit_order fx files).
+
+(* findMaxSecondProject (check_lsp_define.go): a file that belongs to several projects is answered from the project
+   with the most files; `ps` = (entry file, number of files) of the projects that contain the file, in the order
+   `range a.analysisSecondMap` hands them out. State: the entry chosen so far and maxFileNum (initially none, 0).
+   fx = false: taken iff strictly more files (among equally large projects the first visited stays);
+   fx = true : fixes/C09-project-order.diff: ... or equally many files and a smaller entry name. *)
+Definition pick_step (fx : bool) (st : option (list N) * N) (c : list N * N) : option (list N) * N :=
+  let (best, mx) := st in
+  let (e, n) := c in
+  if (mx <? n) || (fx && (n =? mx) && match best with Some b => bytes_ltb e b | None => false end)
+  then (Some e, n) else st.
+Definition pick_project (fx : bool) (ps : list (list N * N)) : option (list N) :=
+  fst (fold_left (pick_step fx) ps (None, 0)).
 
 (* ---- worker pools: results arrive in completion order and are stored under the file's key ---- *)
 Definition collect {R} (arrivals : list (list N * R)) : amap R :=
